@@ -59,6 +59,9 @@ struct JSON {
         ~JSONParser()                             = delete;
 
         static ValueT Parse(Stream_T &stream, const Char_T *content, SizeT length) {
+            // The stream is scratch space for unescaping; leftovers would be glued to the next string.
+            stream.Clear();
+
             if (length != 0) {
                 SizeT offset = 0;
                 StringUtils::TrimLeft(content, offset, length);
